@@ -108,3 +108,26 @@ func ZvC05_LongRun() {
 	_, err := q.Dequeue()
 	vrt.Assert(vrt.And(err != nil, q.Size() == 0), "C05/Queue/long-run/empty-at-the-end")
 }
+
+// ZvC05_LongRun_Linked: the same long scenario for the linked queue (130 symbolic elements, drain,
+// refill after the drain).
+func ZvC05_LongRun_Linked() {
+	const N = 130
+	vals := make([]int, N)
+	for i := range vals {
+		vals[i] = vrt.Int()
+	}
+	q := NewLinked(vals[0])
+	for i := 1; i < N; i++ {
+		q.Enqueue(vals[i])
+	}
+	vrt.Assert(q.Size() == N, "C05/LQueue/long-run/Size-after-growth")
+	for i := 0; i < N; i++ {
+		vrt.Assert(q.Peek() == vals[i], "C05/LQueue/long-run/Peek-is-next")
+		vrt.Assert(q.Dequeue() == vals[i], "C05/LQueue/long-run/fifo-without-loss")
+		vrt.Assert(q.Size() == N-1-i, "C05/LQueue/long-run/Size-while-draining")
+	}
+	x := vrt.Int()
+	q.Enqueue(x)
+	vrt.Assert(vrt.And(q.Size() == 1, q.Dequeue() == x, q.Size() == 0), "C05/LQueue/long-run/refill-after-drain")
+}
